@@ -129,6 +129,16 @@ CLAIMED["C11"] = dict(
     technique="TLA+ specification (Broker, sequential regime) model-checked with TLC; TLC-generated behaviours (transition cover / all paths) replayed into a real broker over net.Pipe",
     design="6 C11")
 
+CLAIMED["C19"] = dict(
+    text="The KeepAlive specification (time on a grid of K/5: an expiry needs 1.2 K of silence, time cannot pass 1.6 K of silence without it, an expiry "
+         "publishes the will) is checked by TLC (ActiveNeverDropped, SilentDropped, WillIffExpired); the client schedules it enumerates are run in real "
+         "time against a real broker (KeepAlive 1 s, thorough also 2 s) in parallel lanes: active clients are never closed and every PINGREQ is answered, "
+         "silent ones are closed (not before K) and their will reaches a witness.",
+    note="Real time with wide margins (active gaps <= 0.8 K against a 1.2 K deadline, silence judged at 2.6 K). Quick: fixed patterns + seeded sample. "
+         "Trusted: TLC, harness/keepalive.go, wall clock.",
+    technique="TLA+ specification (KeepAlive) model-checked with TLC; TLC-enumerated timed client schedules replayed in real time against a real broker",
+    design="6 C19")
+
 NOT_APPLICABLE = {
     "C18": "data-race freedom is a property of individual memory accesses under the Go memory model; a TLA+ specification "
            "observes actions, not loads and stores, and could only be bound to the code by hand-placed annotations (DESIGN.md section 7)",
